@@ -452,6 +452,8 @@ class Interp:
     def _propagate(self, cell: Cell) -> None:
         if cell.fresh or cell.mirror is not None:
             return
+        if self.config.get("tree_mode") == "binary":
+            return  # any binary tree: a class does not restrict which child slots are occupied (C14/C15)
         if cell.kinds <= UN and isinstance(cell.entry.get("left"), Node) \
                 and self.config.get("child_on_left", False) is False:
             raise PathInfeasible()
@@ -553,6 +555,8 @@ class Interp:
             v = Ident(f"v{cell.cid}")
         elif f == "child_on_left":
             v = self.config.get("child_on_left", False)
+            if v == "any":
+                v = self.choose(2, f"child_on_left({cell.cid})", ["False", "True"]) == 1
         elif f == "child":
             v = Opaque("unary.child")
         elif f == "id":
@@ -2357,7 +2361,7 @@ class Interp:
             broke = False
             while self.truth(self.eval(st.test, env), "while"):
                 n += 1
-                if n > self.MAX_LOOP:
+                if n > self.config.get("max_loop", self.MAX_LOOP):
                     raise BoundExceeded(f"loop bound at {self.site}")
                 try:
                     self.exec_block(st.body, env)
@@ -2602,6 +2606,8 @@ class Interp:
                 if r[1] == "typing" and r[2] == "cast":
                     return Builtin("cast")
                 return Ext(f"{r[1]}.{r[2]}")
+        if e.id in getattr(mod, "nested_assigned", ()):
+            return Opaque(f"module:{mod.name}.{e.id}")
         if e.id in _BUILTINS:
             return Builtin(e.id)
         if e.id in ("True", "False", "None"):
@@ -2958,6 +2964,21 @@ class Interp:
                 return o.items[k]
             except IndexError:
                 raise AbsRaise("IndexError", self.site, "string index")
+        if isinstance(o, Opaque) and (o.tag.startswith("module:") or o.tag.startswith("item:")):
+            # an entry of data the model does not compute: an unknown value, the same one for the same key
+            return Opaque(f"item:{o.tag}[{k!r}]")
+        if isinstance(o, Ident) and isinstance(k, int):
+            # a character of a symbolic identifier: variable names are single letters, the first (and last) character
+            # is the name itself
+            if k in (0, -1):
+                return o
+            raise AbsRaise("IndexError", self.site, "string index out of range")
+        if isinstance(o, Dct) and isinstance(k, Render) and o.items and all(isinstance(kk, str) for kk in o.items) \
+                and all(isinstance(vv, (int, float)) for vv in o.items.values()) \
+                and any(isinstance(p_, tuple) and p_[0] in ("ident", "opaque") for p_ in _flatten_render(k)):
+            # a table of numbers indexed by a text built from a symbolic name: some entry of the table, determined by the
+            # text (equal texts give the equal entry); a missing key is not modelled
+            return Opaque("table-entry:" + "".join(p_ if isinstance(p_, str) else f"<{p_[1]}>" for p_ in _flatten_render(k)))
         if isinstance(o, Dct):
             for kk, vv in o.items.items():
                 if self._equal(kk, k):
